@@ -28,7 +28,7 @@ INFO = dict(
   stubs=['fake underlying sinks recording Open/Close/CreateSink (3.12)', 'virtual loop (3.1)'],
   assumptions=['A1, A3'],
 )
-EXPECT_COVERS = ['refcount-open-during-close', 'refcount-first-open', 'refcount-surplus-close', 'refcount-last-close', 'shared-same-key', 'shared-different-key',
+EXPECT_COVERS = ['shared-fault-then-same-key', 'refcount-open-during-close', 'refcount-first-open', 'refcount-surplus-close', 'refcount-last-close', 'shared-same-key', 'shared-different-key',
                  'singleton-concurrent-first', 'singleton-replaced-after-failure']
 
 
@@ -159,7 +159,17 @@ def make_body(job):
       # while a holder is alive the same key keeps yielding the same sink
       c = sp.CreateSink({'key': k1})
       check('shared.stable-while-held', bool(k1 == 0) or c is a)
+      # ... also after the shared connection has signalled a fault
+      if isinstance(a, RefCountedSink):
+        a.Open()
+        a.on_faulted.Set('fault')
+        for _ in range(4): gevent.sleep(0)
+        c2 = sp.CreateSink({'key': k1})
+        cover('shared-fault-then-same-key')
+        check('shared.stable-after-fault-while-held', c2 is a)
+        del c2
       n_before = len(created)
+      c2 = None
       del a, b, c
       gc.collect()
       d = sp.CreateSink({'key': k1})
